@@ -21,7 +21,7 @@ pub fn property() -> Property {
             single_shard: false, supplementary: false,
             run: |cfg| {
                 let max = if cfg.tier == crate::run::Tier::Thorough { 200 } else { 60 };
-                run_part(cfg, (prop_oneof![12 => 1..=8usize, 1 => proptest::sample::select(vec![9usize, 64, 1000, 1023, 1024, 2047, 2048, 4096, 5000, 10_000])], proptest::collection::vec(op_strategy(), 0..=max)), |(cap, ops)| History { capacity: *cap, ops: ops.clone() }, check_history)
+                run_part(cfg, (prop_oneof![10 => 1..=8usize, 1 => proptest::sample::select(vec![9usize, 64, 1000, 1023, 1024, 2047, 2048, 4096, 5000, 10_000])], proptest::collection::vec(op_strategy(), 0..=max)), |(cap, ops)| History { capacity: *cap, ops: ops.clone() }, check_history)
             },
             replay: |v| replay_case::<History, _>(v, check_history),
         }],
@@ -46,7 +46,7 @@ fn op_strategy() -> impl Strategy<Value = Op> {
         1 => Just(Op::Clear),
         1 => Just(Op::Len),
         1 => Just(Op::LoadFactor),
-        1 => (0..4u32, prop_oneof![3 => 1..40u16, 1 => 1000..6000u16]).prop_map(|(b, n)| Op::PutMany(b, n)),
+        1 => (0..4u32, prop_oneof![2 => 1..40u16, 1 => 1000..6000u16]).prop_map(|(b, n)| Op::PutMany(b, n)),
     ]
 }
 
